@@ -79,6 +79,7 @@ type Config struct {
 	TLBWays   int    `json:"tlb_ways"`   //
 	DriverMHz uint64 `json:"driver_mhz"` // driver frequency in MHz (others run at 1 GHz)
 	Preset    string `json:"preset"`     // DRAM preset: DDR4, DDR5, HBM2, HBM3, GDDR6 (kind "dram" / "wbdram")
+	MemMHz    uint64 `json:"mem_mhz"`    // clock of the component the drivers talk to (0 = 1000): a slow destination builds back-pressure
 	Ops2      []Op   `json:"ops2"`       // workload of an optional second driver on the same top connection
 	Ctrl      []Ctrl `json:"ctrl"`       // control-protocol history issued by the first driver
 }
@@ -469,6 +470,9 @@ func Build(c *Config, opt Options) *Sim {
 		spec := simplebankedmemory.DefaultSpec()
 		spec.NumBanks = c.Banks
 		spec.Capacity = 1 * mem.MB
+		if c.MemMHz != 0 {
+			spec.Freq = timing.Freq(c.MemMHz) * timing.MHz
+		}
 		m := simplebankedmemory.MakeBuilder().WithRegistrar(s).WithSpec(spec).Build("Mem")
 		assignPorts(s, c.PortBuf, m, "Top", "Control")
 		out.Storage = m.Resources().Storage
@@ -566,6 +570,9 @@ func (o *Sim) buildIdeal(c *Config) *idealmemcontroller.Comp {
 	}
 	spec.Width = c.MemWidth
 	spec.Latency = c.MemLat
+	if c.MemMHz != 0 && (c.Kind == "ideal") {
+		spec.Freq = timing.Freq(c.MemMHz) * timing.MHz
+	}
 	m := idealmemcontroller.MakeBuilder().WithRegistrar(o.Reg).WithSpec(spec).Build("MemCtrl")
 	assignPorts(o.Reg, c.PortBuf, m, "Top", "Control")
 	o.Storage = m.Resources().Storage
@@ -580,6 +587,9 @@ func (o *Sim) buildWT(c *Config, low messaging.Port) messaging.Component {
 	spec.TotalByteSize = c.L1Bytes
 	spec.AddressMapperType = "single"
 	spec.BankLatency = 3
+	if c.MemMHz != 0 && (c.Kind == "wt" || c.Kind == "wtwb") {
+		spec.Freq = timing.Freq(c.MemMHz) * timing.MHz
+	}
 	l1 := writethroughcache.MakeBuilder().WithRegistrar(o.Reg).WithSpec(spec).
 		WithResources(writethroughcache.Resources{RemotePorts: []messaging.RemotePort{low.AsRemote()}}).Build("L1")
 	assignPorts(o.Reg, c.PortBuf, l1, "Top", "Bottom", "Control")
@@ -594,6 +604,10 @@ func (o *Sim) buildWB(c *Config, low messaging.Port) messaging.Component {
 	spec.AddressMapperType = "single"
 	spec.BankLatency = 3
 	spec.NumReqPerCycle = 2
+	if c.MemMHz != 0 && (c.Kind == "wb" || c.Kind == "wbdram") {
+		spec.Freq = timing.Freq(c.MemMHz) * timing.MHz
+		spec.NumReqPerCycle = 1
+	}
 	l2 := writeback.MakeBuilder().WithRegistrar(o.Reg).WithSpec(spec).
 		WithResources(writeback.Resources{RemotePorts: []messaging.RemotePort{low.AsRemote()}}).Build("L2")
 	assignPorts(o.Reg, c.PortBuf, l2, "Top", "Bottom", "Control")
